@@ -8,7 +8,8 @@ Oracle (implementation only): a valid dataset directory in which ONE text field 
 sys.addaudithook monitor: no compile/exec of anything containing the field, no process, no socket, no import of a new module, no
 canary side effect; loading opens files for reading only and only under the directory; upgrading writes, moves and removes only
 under the directory; an invalid element type is reported as an error, and so is a field of a NUMERIC column (integer timestamps,
-the floats of a pose in trajectories.txt / rigs.txt) that is not a number (an empty pose field stands for "no value").
+the floats of a pose in trajectories.txt / rigs.txt, the typed fields of gnss / accelerometer / gyroscope / magnetic / wifi / bluetooth records,
+the point and feature indices of observations.txt) that is not a number (an empty pose field stands for "no value").
 """
 import json
 import os
@@ -161,8 +162,20 @@ def cases(rng, tier):
 # columns the format types as numbers: integer timestamps (column 0), floats of a pose (an empty field stands for "no rotation" /
 # "no translation")
 NUMERIC_COLS = {'trajectories.txt': [0, 2, 3, 4, 5, 6, 7, 8], 'rigs.txt': [2, 3, 4, 5, 6, 7, 8], 'records_camera.txt': [0],
-                'records_depth.txt': [0], 'records_lidar.txt': [0], 'records_gnss.txt': [0], 'records_accelerometer.txt': [0],
-                'records_gyroscope.txt': [0], 'records_magnetic.txt': [0], 'records_wifi.txt': [0], 'records_bluetooth.txt': [0]}
+                'records_depth.txt': [0], 'records_lidar.txt': [0],
+                # timestamp, device_id, then the fields the record classes declare (see Gen/RecordSchemas.lean)
+                'records_gnss.txt': [0, 2, 3, 4, 5, 6], 'records_accelerometer.txt': [0, 2, 3, 4],
+                'records_gyroscope.txt': [0, 2, 3, 4], 'records_magnetic.txt': [0, 2, 3, 4],
+                # timestamp, device_id, address, then frequency, rssi, ssid, scan start, scan end / rssi, name
+                'records_wifi.txt': [0, 3, 4, 6, 7], 'records_bluetooth.txt': [0, 3],
+                # point index, keypoints type, then (image, feature index) pairs
+                'observations.txt': [0, 3, 5, 7, 9, 11]}
+# which of those are integers (the rest are floats)
+INTEGER_COLS = {'records_gnss.txt': [0, 5], 'records_wifi.txt': [0, 3, 6, 7], 'observations.txt': [0, 3, 5, 7, 9, 11]}
+
+
+def is_integer_col(fname, col):
+    return col in INTEGER_COLS.get(fname, [0])
 
 
 def valid_number(text, integer):
@@ -225,10 +238,10 @@ def mutate_field(root, case, canary):
         if case.get('dtype_only') and rel in cfg:
             col = 1
         if case.get('numcol') and rel in numeric:
-            col = rng.choice([c for c in NUMERIC_COLS[rel.split('/')[-1]] if c < len(fields)] or [0])
             if rng.random() < 0.5:
                 i = data_idx[-1]        # the last line of a file is a line like any other
                 fields = [f.strip() for f in lines[i].split(',')]
+            col = rng.choice([c for c in NUMERIC_COLS[rel.split('/')[-1]] if c < len(fields)] or [0])
         if case.get('name_only') and rel in cfg:
             col = 0
         fields[col] = payload.replace(',', ';').replace('\n', ' ')
@@ -479,8 +492,9 @@ def oracle(case):
     if case['path'] == 'load' and r['error'] is None and where[2] in NUMERIC_COLS.get(fname, []) and where[2] >= 0:
         written = r.get('written_field')
         # a text starting with # in the FIRST column makes the whole line a comment: nothing to report
-        if written is not None and not valid_number(written, where[2] == 0) and not (written == '' and where[2] >= 2) \
-                and not (where[2] == 0 and written.startswith('#')):
+        pose_file = fname in ('trajectories.txt', 'rigs.txt')
+        if written is not None and not valid_number(written, is_integer_col(fname, where[2])) \
+                and not (written == '' and where[2] >= 2 and pose_file) and not (where[2] == 0 and written.startswith('#')):
             return {'signature': 'invalid-number-accepted', 'detail': f'{tag} ({written[:60]!r} is no number) loaded without error'}
     if where[3] and case['path'] == 'load' and r['error'] is None:
         from_table = case['pclass'] == 'name'
